@@ -46,6 +46,7 @@ type VerifyOpts struct {
 
 func (w *World) newExec(fn *ssa.Function, ct *Contract, opts VerifyOpts, cuts map[loopKey]bool) *Exec {
 	c := NewCtx()
+	trueTerm, falseTerm = c.True(), c.False()
 	rootName := ""
 	if fn != nil {
 		rootName = fnDisplay(fn)
